@@ -134,6 +134,8 @@ EmptyRes == [dis |-> TRUE, outs |-> <<>>, pv |-> <<>>, inv |-> <<>>, allpv |-> {
 RuleVal(r, args, inst, oname, ci, couts, fc) ==
     CASE r.k = "const" -> r.v
       [] r.k = "file"  -> VFile(inst, oname, fc)
+      [] r.k = "fileodd" -> IF args[r.src].k = "int" /\ args[r.src].i % 2 = 1      \* a file for odd inputs, null otherwise
+                            THEN VFile(inst, oname, fc) ELSE Null
       [] r.k = "files" -> VArr(<<VFile(inst, oname \o "_0", fc), VFile(inst, oname \o "_1", fc)>>)
       [] r.k = "fmap"  -> VObj(("a" :> VFile(inst, oname \o "_a", fc)) @@ ("b" :> VFile(inst, oname \o "_b", fc)))
       [] r.k = "fstr"  -> VFStr(inst, oname \o ".dat", fc)
